@@ -18,7 +18,8 @@ RULE = ("(a) exhaustive: every boolean mask of every shape with H*W <= 6 (quick)
         "= random polynomials of degree <= 3 in (y|abs y, x|abs x) with coefficients k/4 (exact in double), through "
         "OverSamplerUniform.array_via_func_from, @over_sample on Grid2D.from_mask / GridsDataset grids with "
         "OverSamplingUniform(int | Array2D) and OverSamplingIterate, and OverSamplerIterate.array_via_func_from with "
-        "schedules of 1-4 steps from {1,2,4,8}, dyadic and 0.9999-style thresholds, optional absolute tolerance; functions "
+        "schedules of 1-4 steps from {1,2,4,8}, dyadic and 0.9999-style thresholds, optional absolute tolerance; a directed stream "
+        "with the threshold / absolute-tolerance decision exactly ON the boundary (f = c*y^2, pixel centres at |y| = ps/4); functions "
         "vanishing at every pixel centre are generated on purpose (known finding level0-all-zero); (c) tolerance stream "
         "(exact=false, 1e-9): sub-sizes 3,5,6,7 and pixel scales 3/2, 3, 0.1. Iterative cases whose threshold decision lies "
         "within 1e-6 of the boundary (but not exactly on it) are skipped and counted. distinct = distinct JSON input.")
@@ -235,7 +236,24 @@ def gen_inputs(tier, rng):
         via = rng.choice(["class", "class", "decor", "dataset"])
         if via == "class": yield {"op": "iter", "m": m, "ps": ps, "og": og, "thr": thr, "rel": rel, "steps": steps, "f": f}
         else: yield {"op": "decor", "m": m, "ps": ps, "og": og, "os": {"kind": "iter", "thr": thr, "rel": rel, "steps": steps}, "f": f, "via": "from_mask" if via == "decor" else "dataset"}
-    # DESIGN D17 witness and the empty schedule
+    # decisions exactly ON the boundary: f = c*y^2, a row of pixel centres at |y| = ps_y/4 => level_0/level_2 = 1/2 exactly
+    # there (threshold 1/2 must ACCEPT: `<`, not `<=`); level_2 - level_0 = c*ps_y^2/16 at every pixel (absolute tolerance
+    # equal to it must ACCEPT: `>`, not `>=`)
+    for k in range(240 if big else 36):
+        m = rand_mask(rng, 4, 4, 10); ps, og = rand_geo(rng)
+        H = len(m); y0 = rng.choice(unmasked(m))[0]; psy = F(ps[0])
+        og = [fs(psy * (F(rng.choice([1, -1]), 4) - (F(H - 1, 2) - y0))), og[1]]
+        c = F(rng.choice([1, 2, 4, 16]), rng.choice([1, 1, 4]))
+        f = {"absy": False, "absx": False, "terms": [[2, 0, fs(c)]]}
+        steps = rng.choice([[2, 4], [2, 4, 8], [2, 8], [2, 4, 4]])
+        if k % 3 == 0: thr, rel = "1/2", None
+        elif k % 3 == 1: thr, rel = None, fs(c * psy * psy / 16)
+        else: thr, rel = "1/2", fs(c * psy * psy / 16)
+        if k % 2: yield {"op": "iter", "m": m, "ps": ps, "og": og, "thr": thr, "rel": rel, "steps": steps, "f": f}
+        else: yield {"op": "decor", "m": m, "ps": ps, "og": og, "os": {"kind": "iter", "thr": thr, "rel": rel, "steps": steps}, "f": f, "via": "from_mask"}
+    # DESIGN D17 witness, the Coq refutation witness (Props C09_iterate_level0_all_zero_refuted) and the empty schedule
+    yield {"op": "iter", "m": [[False]], "ps": ["1", "1"], "og": ["0", "0"], "thr": "1/2", "rel": None, "steps": [2],
+           "f": {"absy": False, "absx": False, "terms": [[2, 0, "1"]]}}
     yield {"op": "iter", "m": [[False, False], [False, False]], "ps": ["1", "1"], "og": ["0", "0"], "thr": fs(F(0.9999)), "rel": None,
            "steps": [2, 4], "f": {"absy": True, "absx": False, "terms": [[2, 0, "1"], [1, 0, "-1"], [0, 0, "1/4"]]}}
     yield {"op": "iter", "m": [[False, True]], "ps": ["1", "1"], "og": ["0", "0"], "thr": "1/2", "rel": None, "steps": [],
@@ -253,7 +271,7 @@ def gen_inputs(tier, rng):
 
 # ----------------------------------------------------------------------------- implementation calls
 def is_exact(ps, ss):
-    dy = lambda q: (F(q).denominator & (F(q).denominator - 1)) == 0
+    dy = lambda q: (F(q).denominator & (F(q).denominator - 1)) == 0 and F(q).denominator <= 1024 and abs(F(q).numerator) < 2 ** 20   # small dyadic (F(0.1) is dyadic too, but products with it round)
     return all(dy(p) for p in ps) and all(s in (1, 2, 4, 8, 16) for s in ss)
 def qlist(a): return [frac(v) for v in np.asarray(a, dtype=float).ravel()]
 def qqlist(a): return [(frac(r[0]), frac(r[1])) for r in np.asarray(a, dtype=float).reshape(-1, 2)]
